@@ -7,7 +7,10 @@ use crate::{error, expansion, extensions, interp::ExecutionParameters};
 impl<SE: extensions::ShellExtensions> crate::Shell<SE> {
     /// Returns the current value of the IFS variable, or the default value if it is not set.
     pub fn ifs(&self) -> Cow<'_, str> {
-        self.env_str("IFS").unwrap_or_else(|| " \t\n".into())
+        // A variable that is declared but has no value (`local IFS`, `declare IFS`) is unset.
+        self.env_var("IFS")
+            .and_then(|var| var.value().try_get_cow_str(self))
+            .unwrap_or_else(|| " \t\n".into())
     }
 
     /// Returns the first character of the IFS variable, or a space if it is not set.
